@@ -364,6 +364,41 @@ fn c05_variant<V: Variant>(ctx: &Ctx, rep: &mut Report) {
             }
         }
     }
+    // (a2) both characters of an aligned digit pair: all 256 x 256 combinations at every header
+    //      pair and at a few body pairs (the complete domain of the two-character decoders)
+    if ctx.scale >= 1.0 {
+        let mut rng = ctx.rng("c05-pairs", V::INDEX as u64);
+        let b = gen::hash_bytes(&mut rng, V::SIZE, V::CK, V::NB, true);
+        let s0 = oracle::encode_text(&b, V::CK, false);
+        let npairs = V::SIZE;
+        let mut pairs: Vec<usize> = (0..V::CK + 2).collect();
+        if V::NB == 48 {
+            pairs.extend(V::CK + 2..npairs);
+        } else {
+            pairs.extend([V::CK + 2, V::CK + 3, V::CK + 2 + 7, V::CK + 2 + 16, npairs - 1]);
+        }
+        for (k, &pi) in pairs.iter().enumerate() {
+            if (k as u64 + V::INDEX as u64) % ctx.nshards != ctx.shard {
+                continue;
+            }
+            for x in 0..=255u8 {
+                for y in 0..=255u8 {
+                    let mut s = s0.clone();
+                    s[2 * pi] = x;
+                    s[2 * pi + 1] = y;
+                    parse_check::<V>(&s, 1, rep);
+                    if x % 16 == 3 {
+                        // the same pair behind the prefix, auto-detected
+                        let mut t = b"T1".to_vec();
+                        t.extend_from_slice(&s);
+                        parse_check::<V>(&t, 0, rep);
+                    }
+                }
+            }
+            rep.count("distinct_by_construction", 65536);
+            rep.count("c05:pairs_enumerated", 1);
+        }
+    }
     // (b) every length 0..=2*LEN+2, random and all-hex content; prefix look-alikes
     if ctx.shard == (V::INDEX as u64) % ctx.nshards {
         let mut rng = ctx.rng("c05-len", V::INDEX as u64);
@@ -433,6 +468,10 @@ fn c05_variant<V: Variant>(ctx: &Ctx, rep: &mut Report) {
                 }
                 s
             }
+            4 => {
+                rep.count("c05:utf8_multibyte_strings", 1);
+                super::c12::non_ascii_string::<V>(&mut rng).into_bytes()
+            }
             _ => {
                 let b = gen::hash_bytes(&mut rng, V::SIZE, V::CK, V::NB, false);
                 random_case_text::<V>(&mut rng, &b)
@@ -460,7 +499,7 @@ fn c05_variant<V: Variant>(ctx: &Ctx, rep: &mut Report) {
 }
 
 pub fn run_c05(ctx: &Ctx, rep: &mut Report) {
-    rep.rule = "byte strings for all five variants x 3 prefix modes x 3 parse entry points: every position of accepted strings (with and without prefix, mixed case) substituted with all 256 byte values; every length 0..=2*LEN+2 with random / hex / look-alike content and T1,t1,T2 prefixes; seeded byte soups and near-valid strings; acceptance, value and error kind compared with the codec model (set of applicable errors; wrong length => length error); panics are violations; distinct by construction (enumerated) or fingerprint".into();
+    rep.rule = "byte strings for all five variants x 3 prefix modes x 3 parse entry points: every position of accepted strings (with and without prefix, mixed case) substituted with all 256 byte values; all 256 x 256 two-byte combinations at every header digit pair and at body pairs (every pair for the 48-bucket variant); every length 0..=2*LEN+2 with random / hex / look-alike content and T1,t1,T2 prefixes; seeded byte soups and near-valid strings; acceptance, value and error kind compared with the codec model (set of applicable errors; wrong length => length error); panics are violations; distinct by construction (enumerated) or fingerprint".into();
     all_variants!(c05_variant, ctx, rep);
     rep.floor("parse:accepted", 100);
     rep.floor("parse:err:InvalidStringLength", 100);
@@ -471,6 +510,8 @@ pub fn run_c05(ctx: &Ctx, rep: &mut Report) {
         rep.floor("parse:err:LengthIsTooLarge", 10);
     }
     rep.floor("c05:positions_enumerated", 1);
+    rep.floor("c05:pairs_enumerated", 1);
+    rep.floor("c05:utf8_multibyte_strings", 20);
 }
 
 // ---------------------------------------------------------------------------
